@@ -126,7 +126,7 @@ func (c *Cmd) start(kind string) error {
 	if c.Dir != "" {
 		if st, err := os.Stat(c.Dir); err != nil || !st.IsDir() {
 			w.Stats.StartFail++
-			simlog.Add(simlog.Event{Kind: "os.execfail", Subj: token, A: "chdir " + c.Dir})
+			simlog.Add(simlog.Event{Kind: "os.execfail", Subj: token, A: "chdir " + strings.TrimPrefix(c.Dir, w.Strip)})
 			for _, p := range []*Pipe{c.stdoutPipe, c.stderrPipe} {
 				if p != nil {
 					p.readClosed = true
@@ -162,7 +162,7 @@ func (c *Cmd) start(kind string) error {
 	if newGroup {
 		pgid = pid
 	}
-	simlog.Add(simlog.Event{Kind: "os.exec", Subj: token, Pid: pid, N: pgid, A: strings.Join(c.Args, " "), B: c.Dir, Data: append([]string(nil), c.Env...)})
+	simlog.Add(simlog.Event{Kind: "os.exec", Subj: token, Pid: pid, N: pgid, A: strings.Join(c.Args, " "), B: strings.TrimPrefix(c.Dir, w.Strip), Data: append([]string(nil), c.Env...)})
 	p := w.spawn(token, sc, SelfPid, SelfPgid, newGroup, c.stdoutPipe, c.stderrPipe)
 	// the child holds the write ends now; the parent closes its copies
 	for _, pp := range []*Pipe{c.stdoutPipe, c.stderrPipe} {
